@@ -87,6 +87,10 @@ def write_tree(g, base):
     root = roots[i % 2] if g['roots'] == 2 else roots[0]
     p = os.path.join(root, g['layout'][i] + '.l'); os.makedirs(os.path.dirname(p), exist_ok=True)
     open(p, 'w').write(module_text(g, i))
+    if g['roots'] == 2 and root == roots[0]:
+      # a decoy of the same module path under the second root: the first root that has the file wins
+      q = os.path.join(roots[1], g['layout'][i] + '.l'); os.makedirs(os.path.dirname(q), exist_ok=True)
+      open(q, 'w').write('Priv(%d);\nPub(x) :- Priv(x);\n' % (900 + i))
   return roots[0] if g['roots'] == 1 else roots
 
 
@@ -156,6 +160,10 @@ NEGATIVE = [
   ('unused-import-in-module', {'m1.l': 'import m2.Pub as In;\nPub(1);\n', 'm2.l': 'Pub(2);\n'}, 'import m1.Pub;\nT(x) :- Pub(x);\n'),
   ('redefinition-of-imported', {'m1.l': 'Pub(1);\n'}, 'import m1.Pub;\nPub(2);\nT(x) :- Pub(x);\n'),
   ('redefinition-of-alias', {'m1.l': 'Pub(1);\n'}, 'import m1.Pub as Q;\nQ(2);\nT(x) :- Q(x);\n'),
+  ('unused-import-after-a-used-one', {'m1.l': 'Pub(1);\n', 'm2.l': 'Pub(2);\n'}, 'import m1.Pub;\nimport m2.Pub as Q;\nT(x) :- Pub(x);\n'),
+  ('unused-import-after-a-used-one-in-module', {'m1.l': 'import m2.Pub as In;\nimport m3.Pub as In3;\nPub(x) :- In(x);\n', 'm2.l': 'Pub(2);\n', 'm3.l': 'Pub(3);\n'}, 'import m1.Pub;\nT(x) :- Pub(x);\n'),
+  ('redefinition-in-module-after-a-used-import', {'m1.l': 'import m2.Pub as In;\nimport m3.Pub as In3;\nPub(x) :- In(x);\nIn3(5);\n', 'm2.l': 'Pub(2);\n', 'm3.l': 'Pub(3);\n'}, 'import m1.Pub;\nT(x) :- Pub(x);\n'),
+  ('undefined-import-after-a-used-one', {'m1.l': 'Pub(1);\n', 'm2.l': 'Pub(2);\n'}, 'import m1.Pub;\nimport m2.Nope as Q;\nT(x) :- Pub(x) | Q(x);\n'),
   ('missing-file', {'m1.l': 'Pub(1);\n'}, 'import m9.Pub;\nT(x) :- Pub(x);\n'),
   ('private-of-module-not-visible', {'m1.l': 'Priv(1);\nPub(x) :- Priv(x);\n'}, 'import m1.Pub;\nT(x) :- Pub(x), M1_Hidden(x);\n'),
 ]
